@@ -137,6 +137,14 @@ func (x *Exec) call(st *State, fr *Frame, at ssa.Instruction, cc *ssa.CallCommon
 func (x *Exec) callFunction(st *State, fr *Frame, at ssa.Instruction, name string, fn *ssa.Function, bindings []Val, args []Val, bind func(Val), cc *ssa.CallCommon) bool {
 	// guards (F6) of the function under contract
 	x.checkGuards(st, fr, at, name, args)
+	if len(args) == 1 && os.Getenv("GVC_NO_GETTERS") == "" {
+		if v, ok := x.getterValueSt(st, st.heap, fn, args[0]); ok {
+			x.Trusted["generated getter read as its field: "+name]++
+			x.assumeTyped(st, v)
+			bind(v)
+			return false
+		}
+	}
 	if v, ok := x.callPure(st, name, args, fn.Signature.Results()); ok {
 		bind(v)
 		return false
@@ -214,6 +222,10 @@ func (x *Exec) shouldInline(st *State, name string, fn *ssa.Function) bool {
 		}
 	}
 	if x.Cfg.Inline[name] {
+		return true
+	}
+	if _, has := x.contractOf(name); !has && isNewHelper(name, fn) {
+		x.Abstracted["helper that did not exist when the ledger was recorded, inlined: "+name]++
 		return true
 	}
 	// policy given by the contract of the function under verification
@@ -636,13 +648,21 @@ func (x *Exec) checkGuards(st *State, fr *Frame, at ssa.Instruction, callee stri
 			if _, err := fmt.Sscan(pat[i+1:], &k); err != nil || !matchCallee(pat[:i], callee) {
 				continue
 			}
-			if x.siteOrdinal(fr.fn, at, pat[:i]) != k {
-				continue
-			}
-			if os.Getenv("GVC_ORDINAL_ANY_FRAME") == "" && fr != st.frames[0] && fr.fn != x.Top {
-				// ordinals count the call sites of the function under contract itself; a site of
-				// the same ordinal inside an inlined callee is a different call
-				continue
+			if vo, ok := x.virtualOrdinal(st, fr, at, pat[:i]); ok {
+				// the call sits in the function under contract or in a helper extracted from it after
+				// the ledger was recorded: sites are counted as if the helper's body were still in place
+				if vo != k {
+					continue
+				}
+			} else {
+				if x.siteOrdinal(fr.fn, at, pat[:i]) != k {
+					continue
+				}
+				if os.Getenv("GVC_ORDINAL_ANY_FRAME") == "" && fr != st.frames[0] && fr.fn != x.Top {
+					// ordinals count the call sites of the function under contract itself; a site of
+					// the same ordinal inside an inlined callee is a different call
+					continue
+				}
 			}
 		} else if !matchCallee(pat, callee) {
 			continue
@@ -709,6 +729,15 @@ func (x *Exec) applyContract(st *State, fr *Frame, at ssa.Instruction, name stri
 			sc.vars[names[i]] = a
 		}
 		sc.vars[fmt.Sprintf("arg%d", i)] = a
+	}
+	// a parameter renamed since the ledger was recorded keeps answering to its recorded name
+	for n, d := range loadBaseNames()[name] {
+		var i int
+		if _, err := fmt.Sscanf(d, "param#%d", &i); err == nil && !strings.Contains(d, "|") && i < len(args) {
+			if _, ok := sc.vars[n]; !ok {
+				sc.vars[n] = args[i]
+			}
+		}
 	}
 	sc.oldHeap = copyHeap(st.heap)
 	sc.oldWorlds = copyWorlds(st.worlds)
@@ -1390,6 +1419,25 @@ func (x *Exec) specPure(st *State, h map[string]Term, fun string, args []Val) (V
 		if methodOf(pat) != fun {
 			continue
 		}
+		if len(args) == 1 && os.Getenv("GVC_NO_GETTERS") == "" {
+			// a generated getter is its field, in specifications as in code (getters.go)
+			for _, cand := range []string{pat, strings.TrimPrefix(x.TopPkgRel(), "") + "." + pat} {
+				if gf := x.P.Funcs[cand]; gf != nil {
+					if v, ok := x.getterValueSt(st, h, gf, args[0]); ok {
+						// as a pure function a []byte result is its content (that is how clauses compare it)
+						if st != nil {
+							x.assumeTyped(st, v)
+						}
+						if isByteSlice(gf.Signature.Results().At(0).Type()) && v.T.Sort == SSlice {
+							sl := v.T
+							v.T = x.bytesOfIn(h, v.T)
+							v.OfSlice = &sl
+						}
+						return v, true
+					}
+				}
+			}
+		}
 		sig := x.lookupSig(pat)
 		if sig == nil && x.Top != nil && x.Top.Pkg != nil {
 			// pattern without a package: the package of the function under verification
@@ -1618,5 +1666,133 @@ func (x *Exec) contractOf(name string) (*Contract, bool) {
 			return c, true
 		}
 	}
+	// a function under contract that moved (rename.go): its contract is found under its recorded name
+	if old, ok := movedContracts(x.P)[name]; ok {
+		if c, ok := x.P.Contracts[old]; ok {
+			return c, true
+		}
+	}
 	return nil, false
+}
+
+// ---------- call-site ordinals across extracted helpers ----------
+
+type vsite struct {
+	chain []ssa.Instruction // call instructions from the function under contract down to the helper
+	in    ssa.Instruction
+}
+
+// virtualSites lists the call sites matching pat in fn in source order, with the sites of every helper
+// that did not exist when the ledger was recorded spliced in at the helper's call.
+func (x *Exec) virtualSites(fn *ssa.Function, pat string, chain []ssa.Instruction, depth int) []vsite {
+	type site struct {
+		in  ssa.Instruction
+		pos token.Pos
+		seq int
+		sub []vsite
+	}
+	var sites []site
+	n := 0
+	for _, b := range fn.Blocks {
+		for _, in := range b.Instrs {
+			n++
+			var cc *ssa.CallCommon
+			switch c := in.(type) {
+			case *ssa.Call:
+				cc = c.Common()
+			case *ssa.Defer:
+				cc = c.Common()
+			}
+			if cc == nil {
+				continue
+			}
+			name := staticCalleeName(cc)
+			if name == "" && !cc.IsInvoke() {
+				name = "<dynamic>"
+			}
+			if name != "" && matchCallee(pat, name) {
+				sites = append(sites, site{in: in, pos: in.Pos(), seq: n})
+				continue
+			}
+			if f := cc.StaticCallee(); f != nil && depth < 3 {
+				if _, has := x.contractOf(CanonName(f)); !has && isNewHelper(CanonName(f), f) {
+					sub := x.virtualSites(f, pat, append(append([]ssa.Instruction(nil), chain...), in), depth+1)
+					if len(sub) > 0 {
+						sites = append(sites, site{in: in, pos: in.Pos(), seq: n, sub: sub})
+					}
+				}
+			}
+		}
+	}
+	sort.SliceStable(sites, func(i, j int) bool {
+		if sites[i].pos != sites[j].pos {
+			return sites[i].pos < sites[j].pos
+		}
+		return sites[i].seq < sites[j].seq
+	})
+	var out []vsite
+	for _, s := range sites {
+		if s.sub != nil {
+			out = append(out, s.sub...)
+		} else {
+			out = append(out, vsite{chain: chain, in: s.in})
+		}
+	}
+	return out
+}
+
+// virtualOrdinal: the ordinal of the call `at` (in frame fr) among the virtual sites of the function
+// under contract; ok is false when fr is neither that function's frame nor a chain of new helpers below it.
+func (x *Exec) virtualOrdinal(st *State, fr *Frame, at ssa.Instruction, pat string) (int, bool) {
+	if x.Top == nil || len(st.frames) == 0 || st.frames[0].fn != x.Top {
+		return 0, false
+	}
+	var chain []ssa.Instruction
+	found := false
+	for i, f := range st.frames {
+		if i > 0 {
+			if _, has := x.contractOf(CanonName(f.fn)); has || !isNewHelper(CanonName(f.fn), f.fn) {
+				return 0, false
+			}
+			chain = append(chain, f.callInstr)
+		}
+		if f == fr {
+			found = true
+			break
+		}
+	}
+	if !found {
+		return 0, false
+	}
+	for i, s := range x.virtualSites(x.Top, pat, nil, 0) {
+		if s.in != at || len(s.chain) != len(chain) {
+			continue
+		}
+		same := true
+		for j := range chain {
+			if s.chain[j] != chain[j] {
+				same = false
+			}
+		}
+		if same {
+			return i, true
+		}
+	}
+	return 0, false
+}
+
+// TopPkgRel: the package (relative to the module) of the function under contract.
+func (x *Exec) TopPkgRel() string {
+	if x.Top == nil {
+		return ""
+	}
+	for f := x.Top; f != nil; f = f.Parent() {
+		if f.Pkg != nil {
+			return strings.TrimPrefix(f.Pkg.Pkg.Path(), ModPath+"/")
+		}
+		if o := f.Origin(); o != nil && o.Pkg != nil {
+			return strings.TrimPrefix(o.Pkg.Pkg.Path(), ModPath+"/")
+		}
+	}
+	return ""
 }
